@@ -80,11 +80,13 @@ def pattern_values(n, dtype, pat):
     fl = dtype in _FLOATS
     if pat == "a":
         if fl:
-            v = [(i - n // 2) * 0.75 for i in range(n)]
+            # non-dyadic steps: sums and means are not exactly representable, so a computation carried out in
+            # a narrower type than torch's shows on every case rather than on "unlucky" ones
+            v = [(i - n // 2) * 0.7 for i in range(n)]
             if n >= 4:
                 v[n - 1] = 100.0
             if n >= 6:
-                v[1] = -0.25
+                v[1] = -0.3
         else:
             v = [(i - n // 2) * 3 for i in range(n)]
             if n >= 4:
@@ -321,15 +323,7 @@ def trace(fn, oargs, okw, inputs):
         if not isinstance(f, ir.Function):
             f = ir.serde.deserialize_function(f.to_function_proto())
         model.functions[ident] = f
-    # nested function calls: functions called from functions
-    _add_called_functions(model)
     return ir.to_proto(model), structure, len(final)
-
-
-def _add_called_functions(model):
-    """OnnxFunction bodies can call other OnnxFunctions; collect them (the exporter relies on
-    to_function_proto of each recorded function; nested ones are recorded by onnxscript itself)."""
-    return
 
 
 def type_and_check(mp, exp=None):
@@ -426,144 +420,7 @@ def classify_diff(d):
 # argument-class minimisation
 # ------------------------------------------------------------------------------------------------
 
-_DT_NAMES = ("f16", "f32", "f64", "bf16", "i8", "i16", "i32", "i64", "u8", "bool")
-
-
-def _shape_abs(dims):
-    numel = 1
-    for d in dims:
-        numel *= d
-    out = ["numel>0" if numel > 0 else "numel=0"]
-    if not dims:
-        out.append("0d")
-    elif numel == 0:
-        out.append("empty")
-    elif numel == 1:
-        out.append("single")
-    else:
-        out.append("multi")
-    out.append(f"rank={len(dims)}")
-    return out
-
-
-def _parse_shape(v):
-    inner = v[v.index("(") + 1:v.rindex(")")]
-    return [int(d) for d in inner.split(",") if d.strip()]
-
-
-def abstractions(label, v):
-    """Coarser descriptions of a feature value, coarsest first (the exact value is not included)."""
-    if not isinstance(v, str):
-        v = str(v)
-    if v in _DT_NAMES:
-        if v in _FLOATS:
-            return ["float"]
-        if v == "bool":
-            return ["nonfloat"]
-        return ["nonfloat", "int"]
-    if v.startswith("(") and v.endswith(")"):
-        try:
-            return _shape_abs(_parse_shape(v))
-        except ValueError:
-            return []
-    if v.startswith("t(") and v.endswith(")"):
-        try:
-            return ["tensor"] + ["t:" + a for a in _shape_abs(_parse_shape(v))]
-        except ValueError:
-            return ["tensor"]
-    if v.startswith("py:"):
-        parts = v.split(":")
-        out = ["py"]
-        if len(parts) >= 3:
-            out.append("py:" + parts[1])
-        return out
-    if re.fullmatch(r"-?\d+(\.\d+)?(e-?\d+)?", v):
-        out = ["given"]
-        if float(v) != 1:
-            out.append("ne1")
-        out.append("neg" if v.startswith("-") else "nonneg")
-        return out
-    if v.startswith("[") and v.endswith("]"):
-        inner = [x for x in v[1:-1].split(",") if x.strip()]
-        out = ["given", "list"]
-        if inner and all(re.fullmatch(r"-?\d+", x.strip()) for x in inner):
-            out.append("list:hasneg" if any(x.strip().startswith("-") for x in inner) else "list:nonneg")
-        out.append(f"len={len(inner)}")
-        return out
-    if v not in ("omit", "None"):
-        return ["given"]
-    return []
-
-
-def minimise_classes(cases, fails):
-    """cases: list of feature dicts (label -> value) of the cases that were *executed to a verdict* in this
-    batch, fails: parallel list of failure kind or None.  For each failing case greedily generalise its
-    feature conjunction (drop a feature, else replace its value by the coarsest abstraction that works) as long
-    as every case of the batch that matches the generalised class fails with the same kind.  The class is
-    therefore a sound description: within the enumerated domain every decided case in it fails that way.
-    -> list (parallel) of class strings / None."""
-    labels = []
-    for c in cases:
-        for k in c:
-            if k not in labels:
-                labels.append(k)
-    n = len(cases)
-    out = [None] * n
-    memo = {}
-    abs_cache = {}
-
-    def absof(k, v):
-        key = (k, v)
-        if key not in abs_cache:
-            abs_cache[key] = abstractions(k, v)
-        return abs_cache[key]
-
-    def matches(cl, d):
-        for k, (op, v) in cl.items():
-            if k not in d:
-                return False
-            if op == "=":
-                if d[k] != v:
-                    return False
-            elif v not in absof(k, d[k]):
-                return False
-        return True
-
-    for i in range(n):
-        kind = fails[i]
-        if kind is None:
-            continue
-        c = cases[i]
-        cls = {k: ("=", c[k]) for k in labels if k in c}
-
-        def pure(cl):
-            key = (kind, tuple(sorted((k, op, str(v)) for k, (op, v) in cl.items())))
-            if key in memo:
-                return memo[key]
-            ok = True
-            for j in range(n):
-                if fails[j] != kind and matches(cl, cases[j]):
-                    ok = False
-                    break
-            memo[key] = ok
-            return ok
-        for k in list(cls):
-            trial = dict(cls)
-            del trial[k]
-            if pure(trial):
-                cls = trial
-                continue
-            for av in absof(k, c[k]):
-                trial = dict(cls)
-                trial[k] = ("~", av)
-                if pure(trial):
-                    cls = trial
-                    break
-        out[i] = ",".join(f"{k}{op}{v}" for k, (op, v) in cls.items()) or "any"
-    return out
-
-
-from vf.props.c08_min import abstractions, minimise_classes  # noqa: E402,F401,F811  (supersedes the above)
+from vf.props.c08_min import abstractions, minimise_classes  # noqa: E402,F401
 
 
 def fmt_shape(s):
